@@ -16,16 +16,19 @@ RULE = ("margin (L1, real SifchainApp, real margin+clp keepers and message serve
         "BeginBlocker every block (epoch boundaries with interest, liquidations), real clp Swap/AddLiquidity/RemoveLiquidity moving the "
         "price by up to 60% of depth, administrator parameter changes (including fund addresses set to a module account, safety factor "
         "100, either or both fund addresses left out of MsgUpdateParams = stored empty, fund percentages 0/0.1/0.5/1, all while positions "
-        "are open; the message is encoded, decoded, ValidateBasic'ed and sent through the message server), plus 9 directed histories per "
+        "are open; the message is encoded, decoded, ValidateBasic'ed and sent through the message server), plus 10 directed histories per "
         "run (the configurations of F14/F14b/F14c; all ten pools at once with positions on both sides of each, two epoch hooks, every "
         "position closed; safety factor exactly 0 with positions pushed below health 1.05 and 1 by a swap, then 10^-18, 1, 1.05, 100 at "
-        "successive epoch hooks; interest fund address empty: hook, mid-epoch Close, AdminClose; force-close fund address empty: AdminClose "
+        "successive epoch hooks; two positions of opposite direction in one 10^24/10^24 pool, the earlier (address order) large and under "
+        "water, the later 15x and below the safety factor before the hook but above it at its turn; interest fund address empty: hook, mid-epoch Close, AdminClose; force-close fund address empty: AdminClose "
         "with/without fund cut, liquidation).  After every operation: full state dump compared "
         "with the model (pools: 13 fields, positions: 13 fields, counters, 7 accounts x 3 denoms) and MarginOK judged on the "
         "implementation's dump per pool with exact symbol matching, and the backing identity of C01 restricted to this world (c01.marginbacking: for every "
         "token, bank balance of the clp module account = sum over pools of balance + custody) judged on the bank's and keeper's dumps; "
         "after every successful Open: health, collateral taken, asset pair; after every removal by message: closer; "
-        "after every epoch hook: each liquidated position's health as the hook computed it.  non-trivial = distinct successful "
+        "after every epoch hook: each removed position's health AT ITS TURN against the stored safety factor — observed through "
+        "Keeper.BeginBlocker only: the hook is run on discarded branches of the live state from which that position and the later "
+        "positions of its pool were taken out (DestroyMTP), and the position is valued (UpdateMTPHealth) in the pool that run leaves.  non-trivial = distinct successful "
         "Open/Close/AdminClose or epoch-boundary BeginBlocker line")
 TRUSTED_BASE = [
     "Lean 4.33.0 kernel; axioms propext, Classical.choice, Quot.sound (audited per theorem on every run)",
@@ -34,7 +37,8 @@ TRUSTED_BASE = [
     "fact translator extract/margin/params.go (a parameter getter is `field` only if its body is exactly `return k.GetParams(ctx).<Field>`)",
     "fact translator extract/margin/keys.go (syntactic classification of the key constructors of x/margin/types/keys.go and of "
     "Keeper.GetMTPsForPool; anything unrecognised becomes `unknown` and fails the obligation)",
-    "Go harness (set-up, line protocol, the step-by-step replay of the hook loop used to observe per-position health) and the Lean driver's parser",
+    "Go harness (set-up, line protocol, the prefix runs of Keeper.BeginBlocker on discarded branches used to observe each removed "
+    "position's health at its turn; only exported keeper/message-server API is called, no internal helper of the hook) and the Lean driver's parser",
     "cosmos-sdk x/bank (send, blocked recipients), x/auth module accounts, store/cachekv branching: modelled, exercised by the correspondence",
     "environment value: the interest rate InterestRateComputation returns per pool and epoch (math.Pow via GetSQFromBlocks); the theorems hold for every value",
     "decimal->float64->big.Rat conversion (Dec.MustFloat64, Rat.SetFloat64) modelled exactly for normal doubles (Sif.F64), exercised by the correspondence",
